@@ -11,14 +11,6 @@ namespace Panqec.UF
 set_option linter.unusedSimpArgs false
 set_option linter.unusedVariables false
 
-/-- rectangular 0/1 matrix whose Tanner graph is a simple graph (possibly with dangling edges):
-    every column has weight ≤ 2 and two different rows share at most one column -/
-def graphLike (H : Mat) : Bool :=
-  H.all (fun r => decide (r.length = ncols H) && r.all (fun x => decide (x ≤ 1))) &&
-  (List.range (ncols H)).all (fun q => decide (cnt H.length (fun s => hb H s q) ≤ 2)) &&
-  (List.range H.length).all (fun i => (List.range H.length).all fun j =>
-    decide (i = j) || decide (cnt (ncols H) (fun q => hb H i q && hb H j q) ≤ 1))
-
 theorem cnt_ge_two (m : Nat) (f : Nat → Bool) (a b : Nat) (ha : a < m) (hb' : b < m) (hab : a ≠ b)
     (hfa : f a = true) (hfb : f b = true) : 2 ≤ cnt m f := by
   have h1 : cnt m (fun i => decide (i = a)) < cnt m (fun i => decide (i = a) || decide (i = b)) :=
